@@ -50,3 +50,7 @@ ACCESS_POLICY = {'class': 'mqtt.client.base.MQTTBaseProtocol', 'key': 'addr', 'p
 # entry-state heap well-formedness assumed by the VC generator for these fields: an object alive at the entry of a
 # function refers through them only to objects alive at entry (timers cannot point at requests / protocols not yet built)
 HEAP_WF_FIELDS = ['t_arg', 't_owner']
+
+
+# every contract on a protocol method assumes the representation invariant; its base case belongs to every such property
+INVARIANT_BASE = {'mqtt.client.': ['mqtt.client.factory.MQTTFactory.buildProtocol#main']}
